@@ -46,6 +46,11 @@ CHECKS.update({
  "C18": ("model_checking", "Merge.tla defines Admissible(result, v4, v6, rawPre, rawApp) (completeness, per-part order, raw before Netspoc, APPEND between the last permitting Netspoc entry and the trailing denies). TLC enumerates all combinations of the parts (incl. no permit line, empty parts) for ASA ACLs (v4+v6+raw), IOS ACLs and Linux chains; the script of the real planner on the EMPTY device is executed by the device specification and the resulting ACL / chain is checked with Admissible; 9 unmergeable raw files (unknown command, unbound / doubly bound object, name clash, unused group) must end in an error or a warning naming the object.", DEV_NOTE + "; PAN-OS and NSX merges are not covered yet", DEV_TECH, "§7 C18"),
 })
 
+CHECKS.update({
+ "C03": ("model_checking", "Same construction as C01 on the PAN-OS device specification (candidate configuration of the targeted vsys; set = create/merge and ADD on member lists, edit = replace with existing target, delete entry or single member, move before): universes of rule lists with insert/delete/reorder, address-groups renamed/shared/split and name clashes, objects with equal names and different values, service-groups, unknown attribute, a second untargeted vsys; final rulebase equal in order with objects expanded, second plan empty.", DEV_NOTE, DEV_TECH, "§7 C03"),
+ "C04": ("model_checking", "Same construction on the NSX device specification (PUT/PATCH/POST add|remove/DELETE on services, groups, address expressions, policies, rules): universes with rules sharing sequence numbers, groups renamed/shared/split over four addresses, incremental vs full replacement, services changed in place, left-over Netspoc groups/services, policy on one side only, twin rules; per policy the multiset of expanded rules equals the target's, no left-over Netspoc service/group, second plan empty.", DEV_NOTE, DEV_TECH, "§7 C04"),
+})
+
 NA_REASONS = {
  "C20": "quantifies over mutated bytes fed to parsers with oracle 'process did not panic': no state machine to specify; needs mutation fuzzing, a different technique (DESIGN.md §8)",
 }
